@@ -448,6 +448,13 @@ fn judge_eof(sc: &Scenario, res: &SimResult, mid_line: bool, acc: &mut Acc, run:
 
 pub fn replay_c17(scv: &Value) -> Acc {
     let mut acc = Acc::new();
+    if let Some(n) = scv["flood_blank_lines"].as_u64() {
+        acc.evals += 1;
+        if let (_, Some(v)) = flood_stage(n as usize, scv["flood_kind"].as_str().unwrap_or("blank"), 120) {
+            acc.violate(v);
+        }
+        return acc;
+    }
     let sc = match Scenario::from_json(scv) {
         Some(s) => s,
         None => return acc,
@@ -966,4 +973,99 @@ pub fn minimise_c16(v: &Violation) -> Violation {
     out.run = v.run;
     out.scenario = build(&best);
     out
+}
+
+// ------------------------------------------------------------------------------------------
+// C17 flood stage: a very long run of blank lines between two isready probes.  The session is
+// simulated as every other one (real command loop on the seam), but in a CHILD process of the
+// harness, because the failure it looks for - a command loop that recurses per ignored line -
+// ends in a real stack overflow, which aborts the process it happens in.  The parent holds a
+// wall-clock limit on the child; running out of it is "inconclusive", never a verdict.
+
+pub fn flood_scenario(n: usize, kind: &str) -> Scenario {
+    let mut sc = Scenario::new();
+    sc.line("uci");
+    sc.line("isready");
+    for _ in 0..n {
+        sc.line_nowait(if kind == "unknown" { "xyzzy 42" } else { "" });
+    }
+    sc.line("isready");
+    sc.line("quit");
+    sc
+}
+
+/// body of `wsim flood <n>` (the child)
+pub fn flood_child(n: usize, kind: &str) -> i32 {
+    let sc = flood_scenario(n, kind);
+    let res = sa::run(&sc);
+    let mut acc = Acc::new();
+    judge_lifecycle(&sc, &res, true, &mut acc, 0);
+    let sigs: Vec<String> = acc.violations.iter().map(|v| v.sig.clone()).collect();
+    std::println!("flood-result end={} violations=[{}]", crate::sa_checks::end_name(&res.end), sigs.join(","));
+    0
+}
+
+/// (status for the evidence file, violation if one was positively identified)
+pub fn flood_stage(n: usize, kind: &str, limit_s: u64) -> (String, Option<Violation>) {
+    use std::io::Read;
+    use std::os::unix::process::ExitStatusExt;
+    let exe = match std::env::current_exe() {
+        Ok(e) => e,
+        Err(e) => return (format!("inconclusive: current_exe: {}", e), None),
+    };
+    let mut child = match std::process::Command::new(exe)
+        .arg("flood")
+        .arg(n.to_string())
+        .arg(kind)
+        .stdin(std::process::Stdio::null())
+        .stdout(std::process::Stdio::piped())
+        .stderr(std::process::Stdio::piped())
+        .spawn()
+    {
+        Ok(c) => c,
+        Err(e) => return (format!("inconclusive: spawn: {}", e), None),
+    };
+    // the child prints one short line and, on a crash, a short message: far below a pipe buffer
+    let deadline = std::time::Instant::now() + std::time::Duration::from_secs(limit_s);
+    let status = loop {
+        match child.try_wait() {
+            Ok(Some(s)) => break s,
+            Ok(None) => {}
+            Err(e) => {
+                let _ = child.kill();
+                let _ = child.wait();
+                return (format!("inconclusive: wait: {}", e), None);
+            }
+        }
+        if std::time::Instant::now() >= deadline {
+            let _ = child.kill();
+            let _ = child.wait();
+            return (format!("inconclusive: the child did not finish within {} s (killed)", limit_s), None);
+        }
+        std::thread::sleep(std::time::Duration::from_millis(20));
+    };
+    let (mut out, mut err) = (String::new(), String::new());
+    if let Some(mut o) = child.stdout.take() {
+        let _ = o.read_to_string(&mut out);
+    }
+    if let Some(mut e) = child.stderr.take() {
+        let _ = e.read_to_string(&mut err);
+    }
+    let scenario = json!({"family": "SA", "check": "C17", "flood_blank_lines": n, "flood_kind": kind});
+    let mk = |sig: String, detail: String| Violation { prop: "C17".into(), sig, detail, scenario: scenario.clone(), run: 0 };
+    if let Some(sig) = status.signal() {
+        if err.contains("overflowed its stack") {
+            return ("stack overflow".into(), Some(mk("C17/flood/stack-overflow".into(), format!("uci, isready, {} {} lines, isready, quit: the engine's thread overflowed its stack (child ended by signal {})", n, kind, sig))));
+        }
+        return (format!("inconclusive: child ended by signal {} without a stack-overflow message", sig), None);
+    }
+    match out.lines().find(|l| l.starts_with("flood-result ")) {
+        Some(l) if l.ends_with("violations=[]") => ("ok".into(), None),
+        Some(l) => {
+            let sigs = l.split("violations=[").nth(1).unwrap_or("").trim_end_matches(']').to_string();
+            let first = sigs.split(',').next().unwrap_or("").trim_start_matches("C17/").to_string();
+            ("lifecycle violation".into(), Some(mk(format!("C17/flood/{}", first), format!("uci, isready, {} {} lines, isready, quit: {}", n, kind, l))))
+        }
+        None => (format!("inconclusive: child exit {:?} without a result line", status.code()), None),
+    }
 }
